@@ -225,6 +225,24 @@ def run(F, R, tier):
             nm_ok = True
             R.ob("C01-b", "the redirect response carries the request's %s" % fld, ok and nm_ok, "Redirect { %s: %s }" % (fld, expr_text(f.get(fld, {}))[:40]), where(l))
 
+    # root-ness travels with the final specifier: resolved_roots gains exactly the specifiers
+    # that roots resolved / redirected to
+    rr = [n for n in F.all_nodes() if n.get("k") == "MethodCall" and n["name"] == "insert" and field_of(n["recv"]) == "resolved_roots" and not n["_top"].get("derived")]
+    R.floor("C01-b resolved_roots inserts", len(rr), 3)
+    def bound_to_is_root(top, lid):
+        """lid is bound by the `is_root` field of a struct pattern"""
+        for q in top["_nodes"]:
+            if q.get("k") == "Pat" and q.get("pk") == "struct":
+                for fp in q.get("fields") or []:
+                    if fp.get("name") == "is_root" and any(b_.get("lid") == lid for b_ in pat_bindings(fp["pat"])):
+                        return True
+        return False
+    for n in rr:
+        g = guards_at(F, n)
+        ok = any(x.kind == "cond" and x.pol and ((peel(x.node).get("k") == "Field" and peel(x.node)["field"] == "is_root") or (peel(x.node).get("res") == "local" and bound_to_is_root(n["_top"], peel(x.node)["lid"]))) for x in g)
+        R.ob("C01-b", "a specifier is recorded as a resolved root only for a root request", ok,
+             "`resolved_roots.insert(..)` in %s is not under a positive `is_root` test: non-roots would be loaded with root privileges (unknown media type assumed JavaScript, JSON without attribute accepted) and real roots without them" % n["_top"]["path"].split("::")[-1], where(n))
+
     # ---------------- C01-c ------------------------------------------------
     for adt in ("graph::Dependency", "graph::JsModule", "graph::WasmModule", "graph::JsonModule", "graph::TypesDependency"):
         a = F.adt(adt)
